@@ -1,2 +1,4 @@
 from harness.corecheck import make
-MODULE = make("C05", ["CircusProofs/Props/C05.lean"], ["CircusProofs/Lemmas/Core.lean"])
+MODULE = make("C05", ["CircusProofs/Props/C05.lean"],
+              ["CircusProofs/Core/Pres.lean", "CircusProofs/Core/KStep.lean", "CircusProofs/Core/Generic.lean", "CircusProofs/Core/SlotFree.lean", "CircusProofs/Core/Narrow.lean", "CircusProofs/Core/Calm.lean", "CircusProofs/Props/C03.lean",
+               "CircusProofs/Props/C06.lean"])
